@@ -33,6 +33,10 @@ def make_raw(n, seed):
       'g': np.asfortranarray(np.arange(n * 4, dtype=np.float64).reshape(n, 2, 2) + 1 + o),
       'h': (np.arange(2 * n * 3, dtype=np.int16).reshape(2 * n, 3) + 1 + o)[::2],
       'r': _readonly(np.arange(n, dtype=np.float32) * 0.25 + 1 + o),
+      # non-native byte order (IDX / network-order files read with np.frombuffer) and a structured dtype with such a field
+      'be': (np.arange(n, dtype=np.int32) * 5 + 2 + o).astype('>i4'),
+      'bf': (np.arange(n * 2, dtype=np.float64).reshape(n, 2) * 0.5 + 1 + o).astype('>f8'),
+      'st': np.array([((i + 1 + o) % 60000, 0.5 * i + 1) for i in range(n)], dtype=[('a', '>u2'), ('b', '<f4')]),
   }
 
 
